@@ -1,9 +1,190 @@
 (* C07 - SASL responses are what the RFCs say for every credential and challenge.
-   Statements only; proofs are in Proofs/SaslProofs.v. *)
+   Statements only; proofs are in Proofs/SaslProofs.v, SaslScramProofs.v, SaslDigestProofs.v.
+
+   Vocabulary.  Model/SaslModel.v mirrors src/sasl.c, src/scram.c and the SASL parts of src/auth.c over
+   the constants of Gen_sasl (regenerated from the sources on every run); its results are AOk v, ANull
+   (the C function's own refusal) or one of AOOB / AFuel / AAbort / ACrash (never, where a theorem
+   says AOk / ANull).  Byte strings are lists of Z; `bytes l` = every element in 0..255; C strings are
+   NUL-free.  The JID split (spec_node / spec_domain / spec_resource) is C19's, the digests and HMAC
+   (sha1_spec, hmac_spec ..) C17's, base64 (encode = spec_encode, spec_decode, valid_b64) C18's.
+   Spec/Rfc5802Spec.v is an RFC 5802 *server*; Spec/Rfc2831Spec.v the RFC 2831 response-value. *)
 Require Import LV.Common.Bytes LV.Common.HashWords LV.Gen.Gen_hash LV.Gen.Gen_sasl LV.Spec.JidSpec
-               LV.Model.Base64Model LV.Model.HashModel LV.Model.HmacModel LV.Model.SaslModel LV.Proofs.SaslProofs.
+               LV.Spec.Base64Spec LV.Spec.HashSpec LV.Spec.Rfc5802Spec LV.Spec.Rfc2831Spec
+               LV.Model.Base64Model LV.Model.HashModel LV.Model.HmacModel LV.Model.SaslModel
+               LV.Proofs.SaslProofs LV.Proofs.SaslScramProofs LV.Proofs.SaslDigestProofs.
 Local Open Scope Z_scope.
 
+(* the literals, formats, buffer sizes, escape table, refusal bounds, order of the MD5 / SHA-1 inputs and
+   of the reply fields found in the C sources are the ones the theorems below are about *)
 Theorem sasl_constants_are_the_rfc_ones : gen_sasl_expected.
 Proof. exact Gen_sasl_ok. Qed.
 Print Assumptions sasl_constants_are_the_rfc_ones.
+
+(* ------------------------------------------------------------------------------------------ *)
+(* PLAIN (RFC 4616): base64 of NUL authcid NUL passwd, for all byte strings; every byte of the
+   message buffer was written before it was encoded (no AOOB)                                   *)
+Theorem plain_is_b64_nul_user_nul_pass :
+  forall authid password,
+    sasl_plain authid password = AOk (encode ([0] ++ authid ++ [0] ++ password)) /\
+    (bytes authid -> bytes password ->
+       sasl_plain authid password = AOk (spec_encode ([0] ++ authid ++ [0] ++ password))).
+Proof. exact plain_rfc4616. Qed.
+Print Assumptions plain_is_b64_nul_user_nul_pass.
+
+(* ------------------------------------------------------------------------------------------ *)
+(* XEP-0114: the handshake is the lower-case hex of SHA1(stream id ++ secret); no id, no handshake *)
+Theorem component_handshake_is_hex_sha1 :
+  forall stream_id secret,
+    component_handshake (Some stream_id) secret = AOk (hex_of_bytes false (sha1_spec (stream_id ++ secret))) /\
+    component_handshake None secret = ANull.
+Proof. exact component_lemma. Qed.
+Print Assumptions component_handshake_is_hex_sha1.
+
+(* XEP-0078: username = localpart, password, resource = resourcepart, in this order; refused when
+   the JID has no localpart or no resourcepart *)
+Theorem legacy_carries_node_password_resource :
+  forall jid password,
+    legacy_payload jid password =
+      match spec_node jid, spec_resource jid with
+      | Some node, Some resource => AOk (xep0078_fields node password resource)
+      | _, _ => ANull
+      end.
+Proof. exact legacy_lemma. Qed.
+Print Assumptions legacy_carries_node_password_resource.
+
+(* EXTERNAL (XEP-0178): "=" (no authorisation identity) when the certificate carries no xmppAddr or
+   exactly the JID the client connects as; the JID otherwise.  (ANONYMOUS carries no payload at all:
+   nothing to state beyond the correspondence run.) *)
+Theorem external_identity :
+  forall xmppaddrs jid,
+    (xmppaddrs = [] -> external_payload xmppaddrs jid = [61]) /\
+    (xmppaddrs = [jid] -> external_payload xmppaddrs jid = [61]) /\
+    (xmppaddrs <> [] -> xmppaddrs <> [jid] -> external_payload xmppaddrs jid = encode jid).
+Proof. exact external_lemma. Qed.
+Print Assumptions external_identity.
+
+(* ------------------------------------------------------------------------------------------ *)
+(* successive SCRAM attempts draw disjoint windows of the RNG stream: attempt k is computed from the
+   16 positions starting at offset k (in order, +16 after every attempt that reached xmpp_rand_nonce).
+   Unpredictability of the stream itself is not expressible here (tested: distinctness of 10^4 nonces). *)
+Theorem nonce_linear :
+  forall atts rng,
+    run_attempts atts rng =
+      map (fun ao => fst (attempt_on (fst ao) (firstn NONCE_BYTES (skipn (snd ao) rng)))) (combine atts (offsets atts 0)) /\
+    (forall i j oi oj ai, (i < j)%nat -> nth_error atts i = Some ai -> consumes ai = true ->
+       nth_error (offsets atts 0) i = Some oi -> nth_error (offsets atts 0) j = Some oj ->
+       (oi + NONCE_BYTES <= oj)%nat).
+Proof. exact nonce_linear_lemma. Qed.
+Print Assumptions nonce_linear.
+
+(* ------------------------------------------------------------------------------------------ *)
+(* SCRAM.  For every JID with a localpart `node` (any bytes; ',' and '=' included), password, salt of
+   1..124 bytes, iteration count given as a digit string of value >= 1 (no upper bound), server nonce
+   (non-empty, comma-free), with or without channel binding (plus_ready: a -PLUS mechanism needs TLS, a
+   binding type and data that fit the 56-byte buffer; otherwise the client refuses, init_plus_refused):
+     - _make_scram_init_msg succeeds with a message si;
+     - the answer of sasl_scram to the server-first-message  r=<client nonce><server nonce>,s=<base64
+       salt>,i=<count>  is either the refusal, and then the count is >= 2^32, or base64 of a
+       client-final-message that the RFC 5802 server of Spec/Rfc5802Spec.v accepts: gs2 flag and
+       header, user name recovered by the saslname decoder, nonce echoed in full, c= decoding to the
+       gs2 header (++ channel-binding data for -PLUS), AuthMessage, and
+       H(proof XOR HMAC(StoredKey, AuthMessage)) = StoredKey with SaltedPassword = Hi(password, salt, i);
+     - never AOOB / AFuel / AAbort / ACrash.
+   The size hypothesis (< 2^60 bytes in total) is inherited from the 64-bit length counters of C17. *)
+Theorem scram_proof_verifies_sha1 :
+  forall plus secured cbtype cbdata jid rng node password salt idigits snonce,
+    spec_node jid = Some node ->
+    plus_ready plus secured cbtype cbdata ->
+    cfree (opt_list cbtype) -> bytes (opt_list cbtype) -> bytes (opt_list cbdata) ->
+    bytes salt -> salt <> [] -> zlen salt <= 124 ->
+    all_digits idigits = true -> idigits <> [] -> 1 <= dec_value idigits ->
+    cfree snonce -> snonce <> [] ->
+    zlen password + 3 * zlen jid + 2 * zlen snonce + zlen idigits + 2048 <= 2 ^ 60 ->
+    scram_outcome alg_sha1 sha1_spec (hmac_spec sha1_spec 64) plus secured cbtype cbdata jid rng node password salt idigits snonce.
+Proof. exact scram_sha1_lemma. Qed.
+Print Assumptions scram_proof_verifies_sha1.
+
+Theorem scram_proof_verifies_sha256 :
+  forall plus secured cbtype cbdata jid rng node password salt idigits snonce,
+    spec_node jid = Some node ->
+    plus_ready plus secured cbtype cbdata ->
+    cfree (opt_list cbtype) -> bytes (opt_list cbtype) -> bytes (opt_list cbdata) ->
+    bytes salt -> salt <> [] -> zlen salt <= 124 ->
+    all_digits idigits = true -> idigits <> [] -> 1 <= dec_value idigits ->
+    cfree snonce -> snonce <> [] ->
+    zlen password + 3 * zlen jid + 2 * zlen snonce + zlen idigits + 2048 <= 2 ^ 60 ->
+    scram_outcome alg_sha256 sha256_spec (hmac_spec sha256_spec 64) plus secured cbtype cbdata jid rng node password salt idigits snonce.
+Proof. exact scram_sha256_lemma. Qed.
+Print Assumptions scram_proof_verifies_sha256.
+
+Theorem scram_proof_verifies_sha512 :
+  forall plus secured cbtype cbdata jid rng node password salt idigits snonce,
+    spec_node jid = Some node ->
+    plus_ready plus secured cbtype cbdata ->
+    cfree (opt_list cbtype) -> bytes (opt_list cbtype) -> bytes (opt_list cbdata) ->
+    bytes salt -> salt <> [] -> zlen salt <= 124 ->
+    all_digits idigits = true -> idigits <> [] -> 1 <= dec_value idigits ->
+    cfree snonce -> snonce <> [] ->
+    zlen password + 3 * zlen jid + 2 * zlen snonce + zlen idigits + 2048 <= 2 ^ 60 ->
+    scram_outcome alg_sha512 sha512_spec (hmac_spec sha512_spec 128) plus secured cbtype cbdata jid rng node password salt idigits snonce.
+Proof. exact scram_sha512_lemma. Qed.
+Print Assumptions scram_proof_verifies_sha512.
+
+(* the hypotheses are satisfiable: user "a,b", SCRAM-SHA-1-PLUS over tls-unique, count "4096" *)
+Example scram_hyps :
+  spec_node [97; 44; 98; 64; 100] = Some [97; 44; 98] /\
+  plus_ready true true (Some [116; 108; 115; 45; 117; 110; 105; 113; 117; 101]) (Some [1; 2; 3]) /\
+  cfree [116; 108; 115; 45; 117; 110; 105; 113; 117; 101] /\ all_digits [52; 48; 57; 54] = true /\ dec_value [52; 48; 57; 54] = 4096.
+Proof.
+  repeat split; try reflexivity; try discriminate; try (cbn; lia).
+  intros K. cbn in K. repeat (destruct K as [K|K]; [discriminate|]). exact K.
+Qed.
+
+(* the message grammar, spelled out: what _make_scram_init_msg puts on the wire *)
+Theorem scram_messages_wellformed :
+  forall plus secured cbtype cbdata jid rng node,
+    spec_node jid = Some node ->
+    plus_ready plus secured cbtype cbdata ->
+    let cbname := opt_list cbtype in
+    let gs2 := if plus then [112; 61] ++ cbname ++ [44; 44]            (* p=<cb-name>,, *)
+               else [if secured then 121 else 110; 44; 44] in          (* y,,  /  n,, *)
+    let cnonce := rand_nonce (firstn 16 rng) 33 in
+    exists si,
+      fst (make_scram_init_msg plus secured cbtype cbdata jid rng) = AOk si /\
+      si_message si = gs2 ++ [110; 61] ++ scram_escape node ++ [44; 114; 61] ++ cnonce /\
+      scram_first_bare si = [110; 61] ++ scram_escape node ++ [44; 114; 61] ++ cnonce /\
+      si_channel_binding si = encode (gs2 ++ (if plus then opt_list cbdata else [])) /\
+      saslname_decode (scram_escape node) = Some node /\ cfree (scram_escape node) /\
+      (forall c, In c cnonce -> In c [48; 49; 50; 51; 52; 53; 54; 55; 56; 57; 65; 66; 67; 68; 69; 70]) /\
+      ((16 <= length rng)%nat -> length cnonce = 32%nat).
+Proof. exact scram_first_wellformed. Qed.
+Print Assumptions scram_messages_wellformed.
+
+(* ------------------------------------------------------------------------------------------ *)
+(* DIGEST-MD5.  When the challenge parses to the directive table t0 with a nonce, and the client's
+   choice out of the server's qop-options (auth when offered or when there is no qop directive,
+   otherwise what the server sent) is one of the RFC's three values, the reply is base64 of the RFC 2831
+   digest-response: username = localpart, realm = the server's (the domain when absent or empty),
+   nonce echoed, cnonce = 12 hex digits from the RNG, nc=00000001, digest-uri = xmpp/<domain>, in this
+   order, with response = the response-value of section 2.1.2.1.  A challenge without nonce is refused. *)
+Theorem digest_md5_matches_rfc2831 :
+  forall challenge jid password rnd t0 node nonce,
+    parse_digest_challenge challenge = AOk t0 ->
+    tbl_get s_nonce t0 = Some nonce ->
+    spec_node jid = Some node ->
+    let domain := spec_domain jid in
+    let qop := chosen_qop t0 in
+    qop = s_auth \/ qop = s_auth_int \/ qop = s_auth_conf ->
+    sasl_digest_md5 challenge jid password rnd =
+      AOk (encode (digest_response md5_spec node (chosen_realm t0 domain) password nonce
+                                   (rand_nonce rnd 13) qop domain
+                                   (match tbl_get s_charset t0 with Some v => v | None => [] end))).
+Proof. exact digest_lemma. Qed.
+Print Assumptions digest_md5_matches_rfc2831.
+
+Theorem digest_md5_refuses_without_nonce :
+  forall challenge jid password rnd t0,
+    parse_digest_challenge challenge = AOk t0 -> tbl_get s_nonce t0 = None ->
+    sasl_digest_md5 challenge jid password rnd = ANull.
+Proof. exact digest_no_nonce. Qed.
+Print Assumptions digest_md5_refuses_without_nonce.
